@@ -189,6 +189,15 @@ func genC14Elem(g *Gen, e ElemInst, tier string) []HarnessSrc {
 			"\tfor i := 0; i < len(u); i++ {\n\t\tif !contains(a, u[i]) || !contains(b, u[i]) {\n\t\t\tok = false\n\t\t}\n\t}\n"+
 			"\tfor i := 0; i < len(a); i++ {\n\t\tif contains(b, a[i]) && !contains(u, a[i]) {\n\t\t\tok = false\n\t\t}\n\t}\n\tvx.Assert(ok, \"list intersection\")\n",
 		nd(LT, "a"), nd(LT, "b"), containsFn, id)))
+	// order and multiplicity (a longer first list without duplicates against a shorter second list with any):
+	// the intersection is exactly the elements of the first list that occur in the second, in the first list's order
+	if e.Basic {
+		out = append(out, h("VX_C14_intersectlong_"+id, "intersectlong", fmt.Sprintf(
+			"\ta := %s\n\tb := %s\n\tfor i := 0; i < len(a); i++ {\n\t\tfor j := 0; j < i; j++ {\n\t\t\tvx.Assume(a[i] != a[j])\n\t\t}\n\t}\n"+
+				"\tsnap := append(%s(nil), a...)\n\tu := deriveIntersect%s(a, b)\n\tvar exp %s\n\tfor i := 0; i < len(snap); i++ {\n\t\tin := false\n\t\tfor j := 0; j < len(b); j++ {\n\t\t\tif b[j] == snap[i] {\n\t\t\t\tin = true\n\t\t\t}\n\t\t}\n\t\tif in {\n\t\t\texp = append(exp, snap[i])\n\t\t}\n\t}\n"+
+				"\tok := len(u) == len(exp)\n\tfor i := 0; i < len(u) && i < len(exp); i++ {\n\t\tif u[i] != exp[i] {\n\t\t\tok = false\n\t\t}\n\t}\n\tvx.Assert(ok, \"Intersect keeps exactly the common elements, in the first list's order, once each\")\n",
+			ndo(LT, "a", "len=3,cap=0,str=1"), ndo(LT, "b", "len=2,cap=0,str=1"), LT.Expr(), id, LT.Expr())))
+	}
 	// predicate helpers with a call log
 	pre := fmt.Sprintf("\tx := %s\n\tsnap := append(%s(nil), x...)\n\tvar log %s\n\tvar ans []bool\n"+
 		"\tpred := func(e %s) bool {\n\t\tr := vx.Nondet[bool](\"pred\")\n\t\tlog = append(log, e)\n\t\tans = append(ans, r)\n\t\treturn r\n\t}\n",
